@@ -126,6 +126,7 @@ Inductive pop :=
 | PValidateHolder (ch : N) (c : content) (other_ok : bool)
 | PRevoke (ch : N)
 | PFulfil (h : N)      (* Channel::htlcs_fulfilled with the preimage of hash [h] *)
+| PHeartbeat           (* Node::get_heartbeat: prunes payment records that carry nothing *)
 | PRestart.
 
 (** restore: the ledger is rebuilt from the current commitments of every channel
@@ -141,6 +142,12 @@ Definition restore (s : pnode) : pnode :=
   mkPN (inv s) k l (chans s).
 
 Definition in_range (ch : N) : bool := ch <? N.of_nat nch.
+
+Definition prunable (s : pnode) (h : N) : bool :=
+  match inv s h with
+  | Some _ => false
+  | None => (in_total s h =? 0) && (out_total s h =? 0)
+  end.
 
 Definition pstep (s : pnode) (o : pop) : pnode * bool :=
   match o with
@@ -181,6 +188,11 @@ Definition pstep (s : pnode) (o : pop) : pnode * bool :=
          register it feeds is only read under enforce_balance, which the policies here leave
          off): nothing this model tracks moves *)
       (s, true)
+  | PHeartbeat =>
+      (* prune_forwarded_payments: a record without approval and without value in flight on any
+         channel is dropped; approvals are pruned only after their expiry (the clock of the
+         histories considered here does not reach it) *)
+      (mkPN (inv s) (fun h => known s h && negb (prunable s h)) (led s) (chans s), true)
   | PRestart => (restore s, true)
   end.
 
